@@ -238,6 +238,10 @@ class ExecMixin:
         return [Outcome("next", st)]
 
     def x_AnnAssign(self, s, st):
+        if isinstance(s.target, ast.Name) and s.target.id not in self.decl_types:
+            ty = ann_to_type(s.annotation)
+            if ty != "any":
+                self.decl_types[s.target.id] = ty
         if s.value is None:
             return [Outcome("next", st)]
         return self.ev(s.value, st, lambda st1, v: self.assign_target(s.target, v, st1, s))
@@ -370,6 +374,19 @@ class ExecMixin:
                     kt = refine(kt)
                 else:
                     kf = refine(kf)
+        # truthiness test of a local declared `T | none` (T a class): the true side gets the static hint T
+        if isinstance(e, ast.Name) and e.id in st.locals and st.locals[e.id].ty is None:
+            decl = self.decl_types.get(e.id)
+            alts = [a for a in TypeSpec(decl).alts if a != "none"] if decl else []
+            if len(alts) == 1 and alts[0] not in TypeSpec.BASE:
+                name = e.id
+                kt0 = kt
+
+                def kt(s1, kt0=kt0):
+                    cur = s1.locals.get(name)
+                    if cur is not None and cur.ty is None:
+                        s1.locals[name] = self.typed(s1, cur.t, alts[0])
+                    return kt0(s1)
         return self.ev(e, st, lambda st1, v: self.branch(st1, self.truthy(st1, v), kt, kf))
 
     def loop_spec(self, node):
